@@ -8,6 +8,8 @@
 //! grids reaching 1 beyond the bounding box -- so: on the entity, equidistant from several elements, inside (non-solid
 //! meshes only) -- plus far-outside points.  The oracle is a brute-force scan over all segments / triangles written
 //! here (plane projection + inside test + three segment projections; it shares no code with parry).
+//! Near-surface part: queries 1e-7 .. 1e-2 off faces, edges and corners (oblique offsets) of a box, a strip, a thin quad
+//! and an open roof: closest point / distance and Mesh::measure_point_deviation magnitudes against the brute-force distance.
 use super::Report;
 use crate::geom2::{Curve2, Point2};
 use crate::geom3::{Curve3, Iso3, Mesh, Point3, Vector3};
@@ -356,9 +358,92 @@ fn meshes(r: &mut Report) {
     }
 }
 
+
+// ------------------------------------------------------------------------------------------------ near-surface queries
+/// base points on the mesh: every vertex (corner), two points inside every triangle edge, one point inside every face
+fn base_points(t: &[[Point3; 3]]) -> Vec<(Point3, &'static str)> {
+    let mut out: Vec<(Point3, &'static str)> = vec![];
+    let mut push = |q: Point3, k: &'static str, out: &mut Vec<(Point3, &'static str)>| { if !out.iter().any(|(x, _)| *x == q) { out.push((q, k)); } };
+    for f in t.iter() {
+        for k in 0..3 { push(f[k], "corner", &mut out); }
+        for k in 0..3 { let (a, b) = (f[k], f[(k + 1) % 3]); push(a + (b - a) * 0.5, "edge", &mut out); push(a + (b - a) * 0.25, "edge", &mut out); }
+        push(Point3::from(f[0].coords * 0.5 + f[1].coords * 0.25 + f[2].coords * 0.25), "face", &mut out);
+    }
+    out
+}
+/// 6 axis directions and the 24 directions (+-1, +-2, +-3) in cyclic order: oblique to every face, edge and diagonal of the meshes used
+fn offset_dirs() -> Vec<Vector3> {
+    let mut out = vec![];
+    for k in 0..3 { for s in [1.0, -1.0] { let mut v = Vector3::zeros(); v[k] = s; out.push(v); } }
+    for c in [(1.0, 2.0, 3.0), (3.0, 1.0, 2.0), (2.0, 3.0, 1.0)] { for sx in [1.0, -1.0] { for sy in [1.0, -1.0] { for sz in [1.0, -1.0] {
+        out.push(Vector3::new(sx * c.0, sy * c.1, sz * c.2).normalize());
+    } } } }
+    out
+}
+const OFFSETS: [f64; 6] = [1e-7, 1e-6, 1e-5, 1e-4, 1e-3, 1e-2];
+
+/// Mesh::measure_point_deviation and the plain closest-point queries for points 1e-7 .. 1e-2 from the surface
+fn check_deviation(r: &mut Report, name: &str, m: &Mesh, inside: &dyn Fn(&Point3) -> bool) {
+    use crate::common::DistMode;
+    use crate::metrology::Measurement;
+    let t = tris(m);
+    let nf = t.len();
+    let normals: Vec<Vector3> = t.iter().map(tri_normal).collect();
+    let name = format!("{} (is_solid={})", name, m.is_solid());
+    let tol = |d: f64| 1e-9 * (1.0 + d);
+    for (b, kind) in base_points(&t).iter() { for u in offset_dirs().iter() { for h in OFFSETS {
+        let q = b + u * h;
+        if m.is_solid() && inside(&q) { continue; }
+        r.case();
+        let br = brute(&t, &q);
+        let d = || format!("{} query ({:?}, {:?}, {:?}) = {} point ({:?}, {:?}, {:?}) + {:?} * unit({:?}, {:?}, {:?}); brute-force distance {:?}", name, q.x, q.y, q.z, kind, b.x, b.y, b.z, h, u.x, u.y, u.z, br.dmin);
+        let near: Vec<usize> = (0..nf).filter(|&f| br.d[f] <= br.dmin + 1e-12).collect();
+        // plain closest-point queries
+        let sp = m.surf_closest_to(&q);
+        let dp = (q - sp.point).norm();
+        r.check((dp - br.dmin).abs() <= tol(br.dmin), "mesh, query 1e-7..1e-2 off the surface: the distance to the reported closest point equals the brute-force minimum distance", d);
+        r.check((0..nf).any(|f| (sp.point - tri_closest(&t[f][0], &t[f][1], &t[f][2], &sp.point)).norm() <= EPS * (1.0 + sp.point.coords.norm()) && (normals[f] - sp.normal.into_inner()).norm() <= 1e-9),
+            "mesh, query 1e-7..1e-2 off the surface: the reported point lies on a face of the mesh and the reported normal is that face's normal", d);
+        // deviation, point mode
+        let dev = m.measure_point_deviation(&q, DistMode::ToPoint);
+        let val = dev.value();
+        let dd = || format!("{}; measure_point_deviation(ToPoint) value {:?} a ({:?}, {:?}, {:?}) direction ({:?}, {:?}, {:?})", d(), val, dev.a.x, dev.a.y, dev.a.z, dev.direction.x, dev.direction.y, dev.direction.z);
+        r.check(dev.b == q && ((q - dev.a).norm() - br.dmin).abs() <= tol(br.dmin), "measure_point_deviation: a is a closest point of the mesh (brute force), b is the query", dd);
+        if br.dmin >= 1.000001e-6 {
+            r.check((val.abs() - br.dmin).abs() <= tol(br.dmin), "measure_point_deviation (ToPoint): the magnitude of the deviation equals the distance from the query to the closest point (brute force)", dd);
+        } else {
+            // documented: below an epsilon of 1e-6 the measurement is taken along the surface normal
+            r.check(val.abs() <= br.dmin + tol(br.dmin) && br.dmin - val.abs() <= 1.000001e-6, "measure_point_deviation (ToPoint), query closer than 1e-6: the magnitude differs from the distance to the closest point by less than the documented epsilon 1e-6 and never exceeds it", dd);
+        }
+        // sign: only where all nearest faces agree clearly about the side
+        let sides: Vec<f64> = near.iter().map(|&f| normals[f].dot(&(q - br.cp[f]))).collect();
+        if br.dmin >= 1.000001e-6 && sides.iter().all(|s| *s > 1e-3 * br.dmin) { r.check(val > 0.0, "measure_point_deviation (ToPoint): positive on the outward-normal side of every nearest face", dd); }
+        if br.dmin >= 1.000001e-6 && sides.iter().all(|s| *s < -1e-3 * br.dmin) { r.check(val < 0.0, "measure_point_deviation (ToPoint): negative behind every nearest face", dd); }
+        // plane mode: the normal component for one of the nearest faces
+        let pl = m.measure_point_deviation(&q, DistMode::ToPlane).value();
+        r.check(sides.iter().any(|s| (s - pl).abs() <= tol(br.dmin)), "measure_point_deviation (ToPlane): the deviation is the component of the offset along the normal of a nearest face", || format!("{}; ToPlane value {:?}, normal components for the nearest faces {:?}", d(), pl, sides));
+    } } }
+}
+
+fn near_surface(r: &mut Report) {
+    let p = |x: f64, y: f64, z: f64| Point3::new(x, y, z);
+    let in_box = |q: &Point3| q.x > 0.0 && q.x < 2.0 && q.y > 0.0 && q.y < 3.0 && q.z > 0.0 && q.z < 4.0;
+    for solid in [false, true] {
+        check_deviation(r, "box 2x3x4", &Mesh::create_box(2.0, 3.0, 4.0, solid), &in_box);
+    }
+    let strip = Mesh::new(vec![p(0.0, 0.0, 0.0), p(2.0, 0.0, 0.0), p(0.0, 2.0, 0.0), p(2.0, 2.0, 1.0)], vec![[0, 1, 2], [1, 3, 2]], false);
+    check_deviation(r, "two-triangle strip", &strip, &|_| false);
+    let quad = Mesh::new(vec![p(0.0, 0.0, 0.0), p(16.0, 0.0, 0.0), p(16.0, 0.25, 0.0), p(0.0, 0.25, 0.0)], vec![[0, 1, 2], [0, 2, 3]], false);
+    check_deviation(r, "long thin quad 16x0.25", &quad, &|_| false);
+    // an open roof: two rectangles meeting at a ridge, rim edges all around
+    let roof = Mesh::new(vec![p(0.0, 0.0, 0.0), p(4.0, 0.0, 0.0), p(0.0, 1.5, 2.0), p(4.0, 1.5, 2.0), p(0.0, 3.0, 0.0), p(4.0, 3.0, 0.0)], vec![[0, 1, 3], [0, 3, 2], [2, 3, 5], [2, 5, 4]], false);
+    check_deviation(r, "open roof (ridge y=1.5, z=2)", &roof, &|_| false);
+}
+
 pub fn run() -> Option<Report> {
-    let mut r = Report::new("curves: all 2..=3-vertex sequences over the 3x3 grid (2D, x force_closed) / over {0,1}^3 (3D), 7 + 5 fixed polylines with 4..=33 vertices (long thin, nested, nearly coincident, self-crossing, doubled back); meshes: box, box + disjoint box, box + nested box, two-triangle strip, two nearly coincident triangles, long thin quad, solid and non-solid; queries on half/quarter-integer grids reaching 1 beyond the bounding box plus far-outside points (inside points for non-solid meshes only); caps 0.5*d, d+0.5, 2d+1, 0.25, 1.25, 5 (never within 1e-3 of the true distance d); max_angle in {0.1, 0.5, 1, 1.5, 2} rad with a 1e-6 rad undecided margin; transforms None / translation / quarter turn + translation; oracle = brute force over all segments / triangles, tolerance 1e-9 relative");
+    let mut r = Report::new("curves: all 2..=3-vertex sequences over the 3x3 grid (2D, x force_closed) / over {0,1}^3 (3D), 7 + 5 fixed polylines with 4..=33 vertices (long thin, nested, nearly coincident, self-crossing, doubled back); meshes: box, box + disjoint box, box + nested box, two-triangle strip, two nearly coincident triangles, long thin quad, solid and non-solid; queries on half/quarter-integer grids reaching 1 beyond the bounding box plus far-outside points (inside points for non-solid meshes only); caps 0.5*d, d+0.5, 2d+1, 0.25, 1.25, 5 (never within 1e-3 of the true distance d); max_angle in {0.1, 0.5, 1, 1.5, 2} rad with a 1e-6 rad undecided margin; transforms None / translation / quarter turn + translation; oracle = brute force over all segments / triangles, tolerance 1e-9 relative; NEAR-SURFACE: box 2x3x4 (solid and not), two-triangle strip, long thin quad, open roof x base points (every corner, two points inside every triangle edge, one inside every face) x 30 offset directions (6 axes, 24 of type (+-1,+-2,+-3)) x offsets 1e-7, 1e-6, 1e-5, 1e-4, 1e-3, 1e-2: closest point / distance / normal and Mesh::measure_point_deviation (ToPoint magnitude and sign, ToPlane) against the brute-force distance (below the documented 1e-6 epsilon the ToPoint magnitude is judged to 1e-6)");
     curves(&mut r);
     meshes(&mut r);
+    near_surface(&mut r);
     Some(r)
 }
